@@ -2,6 +2,7 @@ package core
 
 import (
 	"go/ast"
+	"go/constant"
 	"go/token"
 	"go/types"
 
@@ -309,3 +310,12 @@ func AssignedExprs(n ast.Node, f func(lhs ast.Expr, rhs ast.Expr, stmt ast.Stmt)
 	})
 }
 
+
+// ConstInt returns the value of a constant integer expression.
+func ConstInt(info *types.Info, e ast.Expr) (int64, bool) {
+	tv, ok := info.Types[e]
+	if !ok || tv.Value == nil {
+		return 0, false
+	}
+	return constant.Int64Val(constant.ToInt(tv.Value))
+}
